@@ -313,4 +313,43 @@
             }
         }}}
         assert!(n > 90_000, "box shrank: {n}");
+        // statement level: a condition that is a constant must behave like the same value held in a variable, also for what
+        // the branches DECLARE (blocks, macros, assignments) - a branch that is not taken is still part of the template:
+        // its blocks are overridable / callable, its macros and variables are simply not defined
+        {
+            let mut env2 = Environment::new();
+            env2.add_template("base", "[{% block body %}base{% endblock %}|{% block foot %}f{% endblock %}]").unwrap();
+            let conds: &[&str] = &["true", "false", "not true", "not false", "1 in [1, 2]", "3 in [1, 2]", "0", "1", "''", "'a'", "none", "[]", "[0]", "1 == 1.0", "1 > 2", "true and false", "false or 'x'", "2 ** 3 == 8"];
+            let shells: &[&str] = &[
+                "{% if COND %}A{% else %}B{% endif %}",
+                "{% if COND %}A{% elif not (COND) %}B{% else %}C{% endif %}",
+                "{% extends 'base' %}{% if COND %}{% block body %}child{% endblock %}{% endif %}",
+                "{% extends 'base' %}{% if COND %}x{% else %}{% block body %}child{{ super() }}{% endblock %}{% endif %}",
+                "{% extends 'base' %}{% if COND %}{% block body %}one{% endblock %}{% else %}{% block foot %}two{% endblock %}{% endif %}",
+                "{% if COND %}{% block foo %}x{% endblock %}{% endif %}<{{ self.foo() }}>",
+                "{% if COND %}a{% else %}{% block foo %}y{% endblock %}{% endif %}<{{ self.foo() }}>",
+                "{% if COND %}{% macro m() %}M{% endmacro %}{% endif %}{{ m is defined }}",
+                "{% if COND %}{% set v = 1 %}{% else %}{% set w = 2 %}{% endif %}{{ v }}|{{ w }}",
+                "{{ 'a' if COND else 'b' }}|{{ 'a' if COND }}",
+                "{% for x in [1, 2] if COND %}{{ x }}{% else %}E{% endfor %}",
+                "{% for x in [1, 2] %}{% if COND %}{% block inloop %}L{{ x }}{% endblock %}{% endif %}{% endfor %}",
+                "{% if COND %}{% for x in [1] %}{% block deep %}D{% endblock %}{% endfor %}{% endif %}{{ self.deep() }}",
+                "{% set r %}{% if COND %}T{% endif %}{% endset %}[{{ r }}]",
+            ];
+            let mut k = 0;
+            for c in conds { for sh in shells {
+                let lit_src = sh.replace("COND", c);
+                let var_src = sh.replace("COND", "cv");
+                let cv = env2.compile_expression(c).unwrap().eval(()).unwrap();
+                let run = |src: &str, ctx: Value| -> Result<String, crate::ErrorKind> {
+                    let t = env2.template_from_str(src).unwrap_or_else(|e| panic!("load of {src:?} failed: {e}"));
+                    t.render(ctx).map_err(|e| e.kind())
+                };
+                let got = run(&lit_src, crate::context! {});
+                let want = run(&var_src, crate::context! { cv => cv });
+                assert!(got == want, "{lit_src}: {got:?}, but with the condition in a variable: {want:?}");
+                k += 1;
+            }}
+            assert!(k > 200);
+        }
     }
